@@ -1,7 +1,7 @@
 SPECIFICATION Spec
 CONSTANTS
   N = 3
-  Powers = {1, 2, 3, 5, 7, 8, 100, 4099, 16384, 32767}
+  Powers = {1, 2, 3, 7, 100, 4099, 16384, 32767}
   UseCeil = FALSE
 INVARIANT Inv
 CHECK_DEADLOCK FALSE
